@@ -903,6 +903,17 @@ class C18(PropBase):
             text, sp = text_of(f, "canon", ws=0.0)
             text = pad_for_padding(text, i % 3)
             out.append(self.base_case(rng, "armor-padding-%d" % (i % 3), f, ARMOR + b64(text), "ok", plain=text, cfg=cfg, txns=txns, layout=layout))
+        # the armor word inside a plain definition: armor is detected by the *prefix* only
+        for i in range(15 * scale):
+            cfg, txns, layout = self.journal(rng)
+            f = {"k": rng.choice(["or", "and"]), "fs": [self.filter_for(rng, txns, depth=1),
+                                                        {"k": rng.choice(RE_KINDS), "re": rng.choice(["base64:.*", "base64:", ".*base64:[A-Za-z0-9+/=]*"])}]}
+            text, sp = text_of(f, "canon", ws=0.0)
+            if rng.random() < 0.3:
+                text = " " + text
+            enc = rng.choice(["plain", "plain", "armor"])
+            out.append(self.base_case(rng, "armor-word-inside:" + enc, f, text if enc == "plain" else ARMOR + b64(text), "ok", plain=text,
+                                      cfg=cfg, txns=txns, layout=layout))
         # forcing an entry point: armor given to from_json_str, JSON given to from_armor
         for i in range(20 * scale):
             cfg, txns, layout = self.journal(rng)
